@@ -13,6 +13,10 @@ mod step;
 mod utils;
 pub mod variable;
 mod watchpoint;
+#[cfg(bs_verif)]
+pub mod verif_export {
+    pub use super::debugee::dwarf::verif_export::PathSearchIndex;
+}
 
 pub use breakpoint::BreakpointView;
 pub use breakpoint::BreakpointViewOwned;
